@@ -384,6 +384,31 @@ def run(F, rep, tier):
         rep.ok('R15.4', 'lex_base_and_emit', 'x = base * x + to_digit(base) over BigInt')
     else:
         rep.viol('R15.4', "lex::Lexer::<'a>::lex_base_and_emit|accumulator", 'radix literals are no longer accumulated as base * x + digit in BigInt (to_digit %s, mul %d, add %d)' % (tod, len(mul), len(add)), bb_.loc(0))
+    # literal evaluation: ImaginaryFloatLit(x) denotes 0 + x i exactly, in evaluate and in Expr::constant_value (used by freeze)
+    for fn in ('eval::evaluate', 'core::Expr::constant_value'):
+        if not F.has_fn(fn):
+            rep.error('R15.4', 'missing ' + fn)
+            continue
+        b = F.body(fn)
+        okim = None
+        for m in F.matches.get(fn, []):
+            if m['kind'] != 'Normal' or 'core::Expr' not in m['scrut_ty']:
+                continue
+            for i, a in enumerate(m['arms']):
+                if any(p_.endswith('Expr::ImaginaryFloatLit') for p_ in pat_paths(a['pat'])):
+                    regn = arm_region(F, b, m, i)
+                    cs_ = b.calls_in(regn)
+                    news = [c for c in cs_ if c.target.endswith('Complex::<T>::new') or c.target.endswith('::new') and 'Complex' in c.target]
+                    arith = [c for c in cs_ if (c.callee.get('tr') or '').startswith('std::ops::')]
+                    zero = any(c.args and c.args[0][0] == 'k' and c.args[0][2].startswith('0') for c in news)
+                    okim = bool(news) and zero and not arith
+        if okim:
+            rep.ok('R15.4', '%s: ImaginaryFloatLit' % fn, 'Complex::new(0.0, x), no arithmetic')
+        elif okim is None:
+            rep.error('R15.4', '%s: ImaginaryFloatLit arm not found' % fn)
+        else:
+            rep.viol('R15.4', '%s|ImaginaryFloatLit' % fn, 'an imaginary literal is not built as Complex::new(0.0, x) (arithmetic on the literal, e.g. i * x, turns an overflowing literal into NaN + inf i)', b.loc(0))
+
     # ---------------- R15.5
     rep.rule('R15.5', 'no literal is narrowed silently: every narrowing / sign-changing `as` cast in the lexer, parser and exact decimal parser '
              'is in the reviewed table (a bytes-literal element or radix must be range-checked, not truncated)')
